@@ -469,7 +469,8 @@ fn request_side(r: &mut Report) {
             values.push((Some(format!("{}/{}{}", t.0, t.1, p).into_bytes()), Some(t)));
         }
     }
-    for bad in ["", "garbage", "application/", "/json", "application/json/x", " "] {
+    // a Content-Type names one media type: list forms (as in Accept) are not one
+    for bad in ["", "garbage", "application/", "/json", "application/json/x", " ", "application/json, text/plain", "application/json,", ", application/json", "json, application/json", "application/json , application/json", "text/plain, application/json", "application/x-jackson-smile, text/plain", "application/json,application/x-jackson-smile", "application/json text/plain", "application/json;charset=utf-8, text/plain"] {
         values.push((Some(bad.as_bytes().to_vec()), None));
     }
     values.push((Some(b"application/json\xff".to_vec()), None));
